@@ -255,6 +255,19 @@ fn read(rng: &mut Rng, ctx: &mut Ctx) {
               (None, Some(_)) => c.fail("C10", format!("skip-frames read of a finished replay failed: {}", sl)), _ => {} }
             ctx.push(c);
         }
+        // the debug option (event payloads dumped into a directory) changes nothing about the result
+        if k % 10 == 4 {
+            let dir = std::env::temp_dir().join(format!("pv-debug-{}-{}", std::process::id(), k)); let _ = std::fs::remove_dir_all(&dir);
+            for (skip, hsh) in [(false, k % 20 == 4), (true, false)] { if skip && r.end.is_none() { continue; }
+                let o = slippi::de::Opts { skip_frames: skip, compute_hash: hsh, debug: Some(slippi::de::Debug { dir: dir.clone() }) };
+                let res = std::panic::catch_unwind(|| slippi::read(Cursor::new(&b), Some(&o)));
+                let dl = match res { Err(_) => "panic".to_string(), Ok(Err(e)) => format!("err {}", e), Ok(Ok(g)) => { let mut s = dump::summary(&g); if hsh { s = s.replace("hashed=none", &format!("hashed=(some {})", b.len())); } s } };
+                let (plain, _) = read_line(&b, skip, hsh);
+                let mut c = Case::new(read_cmd(skip, hsh, &b), dl.clone()); c.tags = vec![format!("debug-opt skip{}", skip as u8)];
+                if dl != plain { let m = format!("read with the debug option (skip={}, hash={}) differs from the read without it: {} vs {}", skip, hsh, &dl[..dl.len().min(100)], &plain[..plain.len().min(100)]); for p in ["C01", "C04", "C06", "C12"] { c.fail(p, m.clone()); } if skip { c.fail("C10", m.clone()); } if hsh { c.fail("C11", m); } }
+                ctx.push(c); }
+            let _ = std::fs::remove_dir_all(&dir);
+        }
         // the same reads from a source positioned behind foreign bytes (and followed by more): nothing may change
         if k % 4 == 1 {
             let pre = [1usize, 15, 37, 512, 4096][(k / 4) % 5]; let post = [0usize, 1, 600][(k / 20) % 3];
